@@ -207,6 +207,12 @@ func (c *Client) Do(originalReq *http.Request) (*http.Response, error) {
 	if resp.StatusCode != http.StatusUnauthorized {
 		return resp, nil
 	}
+	if resp.Request != nil && resp.Request.URL != nil && resp.Request.URL.Host != req.URL.Host {
+		// the challenge was issued by the target of a redirect, not by the host
+		// this request is addressed to: answering it would hand the credentials
+		// of that host to whatever realm or scheme another host asks for
+		return resp, nil
+	}
 
 	// attempt again with credentials for recognized schemes
 	challenge := resp.Header.Get("Www-Authenticate")
